@@ -86,3 +86,39 @@ fn f10_2s_complement_bit_len_above_64_panics() {
         let _ = w.write_2s_compliment_binary_integer(65, 1);
     }));
 }
+
+mod big {
+    use asn1rs::prelude::*;
+    asn_to_rust!(
+        r"Big DEFINITIONS AUTOMATIC TAGS ::= BEGIN
+          L ::= SEQUENCE OF BOOLEAN
+          S ::= IA5String
+        END"
+    );
+}
+
+#[test]
+fn f01a_sequence_of_20000_does_not_round_trip() {
+    use asn1rs::prelude::*;
+    let v = big::L(vec![true; 20000]);
+    let mut w = UperWriter::default();
+    w.write(&v).unwrap();
+    let n = w.bit_len();
+    let bytes = w.into_bytes_vec();
+    let mut r = UperReader::from((&bytes[..], n));
+    let d = r.read::<big::L>();
+    assert!(d.is_err() || d.unwrap().0.len() != 20000 || r.bits_remaining() != 0);
+}
+
+#[test]
+fn f01c_ia5string_20000_does_not_round_trip() {
+    use asn1rs::prelude::*;
+    let v = big::S("a".repeat(20000));
+    let mut w = UperWriter::default();
+    w.write(&v).unwrap();
+    let n = w.bit_len();
+    let bytes = w.into_bytes_vec();
+    let mut r = UperReader::from((&bytes[..], n));
+    let d = r.read::<big::S>();
+    assert!(d.is_err() || d.unwrap().0.len() != 20000 || r.bits_remaining() != 0);
+}
